@@ -797,12 +797,56 @@ def vanem_model():
     return vc.GlobalHierarchicalModel([d0, d1]), sem
 
 
+def _c3_lin(x, a=1.0, b=0.5):
+    return a + b * x
+
+
+def _c3_pow(x, a=0.1, b=1.4, c=0.3):
+    return a + b * x**c
+
+
+def _c3_exp(x, a=0.05, b=0.2, c=-0.2):
+    return a + b * np.exp(c * x)
+
+
+def chain3d_model(fitted, rng, n):
+    """X0 Weibull; X1 | X0 log-normal (mu, sigma dependent); X2 | X1 Weibull (alpha, beta dependent): two conditional
+    dimensions, four dependent parameters -> four axes, in the order of the dimensions"""
+    import virocon as vc
+
+    def descs(for_fit):
+        kw = {} if not for_fit else {"bounds": [(0, None), (0, None), (None, None)]}
+        kw2 = {} if not for_fit else {"bounds": [(0, None), (0, None)]}
+        return [
+            {"distribution": vc.WeibullDistribution(alpha=2.5, beta=1.5, gamma=0.5) if not for_fit else vc.WeibullDistribution(),
+             "intervals": vc.NumberOfIntervalsSlicer(5, min_n_points=20)},
+            {"distribution": vc.LogNormalDistribution(), "conditional_on": 0,
+             "parameters": {"mu": vc.DependenceFunction(_c3_pow, **kw), "sigma": vc.DependenceFunction(_c3_exp, **kw)},
+             "intervals": vc.NumberOfIntervalsSlicer(4, min_n_points=20)},
+            {"distribution": vc.WeibullDistribution(f_gamma=0.0), "conditional_on": 1,
+             "parameters": {"alpha": vc.DependenceFunction(_c3_lin, **kw2), "beta": vc.DependenceFunction(_c3_lin, **kw2)}},
+        ]
+
+    sem = {"names": ["first", "second", "third"], "symbols": ["X_0", "X_1", "X_2"], "units": ["a", "b", "c"]}
+    gen = vc.GlobalHierarchicalModel(descs(False))
+    if not fitted:
+        return gen, None, sem
+    sample = gen.draw_sample(n, random_state=int(rng.integers(0, 2**31)))
+    model = vc.GlobalHierarchicalModel(descs(True))
+    with warnings.catch_warnings():
+        warnings.simplefilter("ignore")
+        model.fit(sample)
+    return model, sample, sem
+
+
 def materialize_model(case):
     import virocon as vc
 
     if case["model"] == "VanemBG":
         model, sem = vanem_model()
         return model, None, sem
+    if case["model"] == "Chain3D":
+        return chain3d_model(case["fitted"], sub_rng(case), case.get("n_sample", 1500))
     getter, ds = MODELS[case["model"]]
     dd, fd, sem = getattr(vc, getter)()
     model = vc.GlobalHierarchicalModel(dd)
@@ -853,7 +897,16 @@ def process_models(ck, cases):
                     for dist in model.distributions:
                         for par in getattr(dist, "conditional_parameters", {}):
                             ren[par] = "renamed " + par
-                axes = vc.plot_dependence_functions(model, semantics, par_rename=ren)
+                n_par = sum(len(model.distributions[d].conditional_parameters) for d in cond_dims)
+                if ck.evaluations % 3 == 1 and n_par >= 2:
+                    # axes supplied by the caller: parameter k is drawn into axes[k]
+                    _, given = plt.subplots(1, n_par)
+                    axes = vc.plot_dependence_functions(model, semantics, par_rename=ren, axes=list(given))
+                    if len(axes) != n_par or any(a is not g for a, g in zip(axes, given)):
+                        bad.append(("plot_dependence_functions", "draws_into_given_axes", "returned axes are not the supplied ones"))
+                    ck.count("models:dep_axes_supplied")
+                else:
+                    axes = vc.plot_dependence_functions(model, semantics, par_rename=ren)
             k = 0
             for dim in cond_dims:
                 dist = model.distributions[dim]
@@ -939,7 +992,7 @@ def process_models(ck, cases):
             plt.close("all")
 
             # -- plot_2D_isodensity -------------------------------------------------------
-            for swap in (False, True):
+            for swap in ((False, True) if model.n_dim == 2 else ()):
                 try:
                     n_grid = int(case.get("n_grid", 24))
                     limits = case.get("limits")
@@ -1073,6 +1126,9 @@ def model_cases(rng, seed, n_cases, start):
                "n_grid": int(rng.choice([12, 24, 31])),
                "limits": None if rng.integers(0, 2) else [[0.0, float(rng.uniform(20, 40))], [0.0, float(rng.uniform(12, 25))]]}
     yield {"kind": "models", "gen": [seed, start + n_cases], "model": "VanemBG", "fitted": False, "with_sem": True}
+    yield {"kind": "models", "gen": [seed, start + n_cases + 1], "model": "Chain3D", "fitted": False, "with_sem": True}
+    yield {"kind": "models", "gen": [seed, start + n_cases + 2], "model": "Chain3D", "fitted": True, "with_sem": bool(rng.integers(0, 2)),
+           "n_sample": int(rng.choice([1000, 2000]))}
 
 
 # ---------------------------------------------------------------------------
